@@ -7,4 +7,6 @@ CONSTANTS
   MaxCore = 18
   MaxP2J = 4
   MaxDim4 = 3
+  MaxRank4 = 3
+  MaxBadSize = 36
 INVARIANT SpecOK
